@@ -46,6 +46,10 @@ Report(c, clause, names) ==
   PrintT("VERDICT " \o ToJson([id |-> c.id, v |-> clause,
                                w |-> [val |-> val, fm |-> fm, prog |-> k, names |-> names]]))
 
+\* anchor self-test (c01_anchor): print the reference's final observables
+Dump(c, M) == ("dump" \in DOMAIN c) =>
+   PrintT("FINAL " \o ToJson([id |-> c.id, val |-> val, fm |-> fm, st |-> LiveOf(M, c.live)]))
+
 Stop(v) == /\ verdict' = v
            /\ UNCHANGED <<cid, val, fm, k, ref, bad>>
 
@@ -60,7 +64,7 @@ Step ==
        IF k = 1 THEN
           IF M.sig # "" THEN /\ PrintT("DISCARD " \o ToJson([id |-> c.id]))
                              /\ Stop("discard")
-          ELSE IF Len(c.progs) = 1 THEN Stop("ok")
+          ELSE IF Len(c.progs) = 1 THEN Dump(c, M) /\ Stop("ok")
           ELSE /\ ref' = LiveOf(M, c.live)
                /\ k' = 2
                /\ UNCHANGED <<cid, val, fm, bad, verdict>>
